@@ -108,6 +108,10 @@ Parameter audit (round 3):
   file opener seeks to 0 after opening in append mode, so TextIOWrapper believes the file is new and the codec writes a
   second byte order mark in the middle of the file (``b'\xff\xfea\x00..\n\x00\xff\xfec\x00'``).  The installed fsspec
   (2026.7.0) is outside /repo; side observation, not a verdict.
+* utf-16 together with bz2 / xz is NOT generated on the writer side: ``io.TextIOWrapper`` writes no byte order mark on a stream
+  that is not seekable (``lzma.open(p, "wt", encoding="utf-16")`` alone writes a file without it), so the files cannot be read
+  back by pandas either; standard library behaviour (false alarm under the BOM label corrected, the label now also requires a
+  blocksize to be necessary).
 * ``compression=`` of to_csv is never inferred from the file name (documented: "only used when the first argument is a
   filename" + default None): the writer always gets it explicitly; zip is not generated (no append).
 """
@@ -178,12 +182,26 @@ FLOORS = {
                            "rt_mode_a": 23, "rt_mode_w": 68, "rt_parts_ge3_glob": 45, "rt_parts_ge3_dir": 17, "rt_parts_ge3_list": 26,
                            "rt_parts_ge3_single": 54},
               "max_skipped_fraction": 0.15},
-    "thorough": {"evaluations": 20000, "distinct_nontrivial": 13000,
-                 "counters": {"rd_reads": 12000, "rd_multi_block_reads": 5500, "rd_blocksize_le_header": 2500,
-                              "rd_rows_compared": 280000, "rd_header_only_files": 2000, "rd_no_trailing_newline": 4500,
-                              "rd_files_with_quotes": 8000, "rt_roundtrips": 5800, "rt_files_written": 16000,
-                              "rt_rows_compared": 50000, "rt_with_empty_partition": 1300, "rt_single_file": 2000,
-                              "rt_index_written": 2200, "exhaustive_sweep": 114},
+    "thorough": {"evaluations": 20300, "distinct_nontrivial": 13900,
+                 # 45 % of the thorough run on the unchanged tree (45114 evaluations, 31046 distinct non-trivial)
+                 "counters": {"rd_reads": 13250, "rd_multi_block_reads": 5450, "rd_blocksize_le_header": 2950,
+                              "rd_rows_compared": 305040, "rd_header_only_files": 2550, "rd_no_trailing_newline": 5410,
+                              "rd_files_with_quotes": 9250, "rt_roundtrips": 6660, "rt_files_written": 20520,
+                              "rt_rows_compared": 65000, "rt_with_empty_partition": 1330, "rt_single_file": 2240,
+                              "rt_index_written": 2620, "exhaustive_sweep": 114, "rd_sep": 1380, "rd_encoding": 1020,
+                              "rd_compressed": 950, "rd_compressed_with_blocksize": 690, "rd_skiprows": 890,
+                              "rd_skiprows_multi_block": 330, "rd_comment": 930, "rd_comment_before_header": 300,
+                              "rd_blank_lines": 970, "rd_na_values": 1030, "rd_usecols": 830, "rd_projected": 1070,
+                              "rd_names": 1090, "rd_assume_missing": 280, "rd_sample": 680, "rd_enforce": 690,
+                              "rd_blocksize_str": 1040, "rd_single_dtype": 520, "rd_path_column": 1630, "rd_path_named": 500,
+                              "rd_custom_eol": 640, "rd_header_like_rows": 970, "rd_quoted_newline_split_elsewhere": 240,
+                              "rt_sep": 720, "rt_quoting": 540, "rt_na_rep": 530, "rt_lineterminator": 520, "rt_encoding": 720,
+                              "rt_compressed": 700, "rt_compressed_read_with_blocksize": 220, "rt_compute_false": 710,
+                              "rt_compute_false_parts_ge3": 460, "rt_scheduler_kw": 430, "rt_columns": 380, "rt_index_label": 460,
+                              "rt_header_first_partition_only": 370, "rt_overwrite_existing": 490, "rt_second_write_appends": 330,
+                              "rt_header_like_rows": 290, "rt_name_function": 1780, "rt_mode_a": 700, "rt_mode_w": 1820,
+                              "rt_parts_ge3_glob": 1260, "rt_parts_ge3_dir": 660, "rt_parts_ge3_list": 600,
+                              "rt_parts_ge3_single": 1290},
                  "max_skipped_fraction": 0.15},
 }
 
@@ -192,6 +210,7 @@ FLOORS = {
 # (five of the six have a fix offered under fixes_ready/C47_04..08).
 PENDING = {
     "read_csv:header-line-beyond-first-block&blocked:raises": "comment/blank lines before the header fill the first block: raises",
+    "read_csv:header-line-beyond-first-block&blocked:wrong-frame": "same mechanism, all-string columns: the header text comes back as a data row",
     "read_csv:comment&skiprows:raises": "comment= with skiprows= cannot locate the header (IndexError / sample too small)",
     "read_csv:bom-encoding&later-block-without-bom:UnicodeError": "utf-16: blocks after the first lack the BOM when no header line is prepended",
     "read_csv:include_path_column&projection-of-all-file-columns:columns": "selecting all file columns keeps the path column",
@@ -424,6 +443,11 @@ def _rt_extras(rng, case):
         case["enc"] = rng.choice(("latin-1", "utf-16-le") if layout == "single" else ("latin-1", "utf-16", "utf-16-le"))
     if u() < 0.12:
         case["comp"] = {"kind": rng.choice(("gzip", "gzip", "bz2", "xz")), "explicit": layout == "dir" or u() < 0.4}
+        if case["enc"] == "utf-16" and case["comp"]["kind"] != "gzip":
+            # io.TextIOWrapper writes no byte order mark on a stream that is not seekable (BZ2File / LZMAFile in write mode):
+            # lzma.open(p, "wt", encoding="utf-16") alone produces a file that pandas cannot read back; standard library
+            # behaviour, not dask's
+            case["enc"] = "utf-16-le"
     if u() < 0.12:
         case["compute"] = False
     elif u() < 0.08:
@@ -1349,7 +1373,7 @@ def _label(facet, needed, symptom, message, small=None):
     if "All `iterables` must have a non-zero length" in message:
         # from_map got no blocks at all: every file is zero bytes long (empty frame written with header=False) and a blocksize is set
         return "read_csv:all-files-zero-bytes&blocksize-set:" + symptom
-    if "does not start with BOM" in message:
+    if "does not start with BOM" in message and ("blocked" in needed or "read-blocked" in needed):
         # a block that is not the first of its file is decoded without the byte order mark: happens when no header line is
         # prepended (names= / header=None) or the sampled header line is not the first line of the file
         return "read_csv:bom-encoding&later-block-without-bom:UnicodeError"
